@@ -917,6 +917,38 @@ Proof.
   destruct (tlv_decode cookieTypeAlgorithm cookieTypeKeyS2C cookieTypeKeyC2S pt); try discriminate. contradiction.
 Qed.
 
+(* ------------- the client's receive loop ------------- *)
+Lemma c10_client_loop_sound : forall seal open, ideal_aead seal open ->
+  forall deadline key reqID ds retries i k,
+  client_loop open deadline key reqID ds retries i = Some k ->
+  (i <= k)%nat /\ exists p, verifies seal (nth (k - i) ds []) key p /\ p_uid p = reqID.
+Proof.
+  intros seal open HI deadline key reqID ds.
+  induction ds as [|b r IH]; intros retries i k H; simpl in H; [discriminate|].
+  destruct (client_accept open b key reqID) as [p'| | |] eqn:E.
+  - inversion H; subst k. split; [lia|]. rewrite Nat.sub_diag. simpl.
+    eapply c10_sound_client; eauto.
+  - destruct (deadline && (retries =? 0)%nat); [|discriminate].
+    apply IH in H. destruct H as [H1 H2]. split; [lia|].
+    replace (k - i)%nat with (S (k - S i)) by lia. exact H2.
+  - destruct (deadline && (retries =? 0)%nat); [|discriminate].
+    apply IH in H. destruct H as [H1 H2]. split; [lia|].
+    replace (k - i)%nat with (S (k - S i)) by lia. exact H2.
+  - destruct (deadline && (retries =? 0)%nat); [|discriminate].
+    apply IH in H. destruct H as [H1 H2]. split; [lia|].
+    replace (k - i)%nat with (S (k - S i)) by lia. exact H2.
+Qed.
+
+Lemma c10_client_loop_sound0 : forall seal open, ideal_aead seal open ->
+  forall deadline key reqID ds k,
+  client_loop open deadline key reqID ds 0 0 = Some k ->
+  exists p, verifies seal (nth k ds []) key p /\ p_uid p = reqID.
+Proof.
+  intros seal open HI deadline key reqID ds k H.
+  destruct (c10_client_loop_sound seal open HI _ _ _ _ _ _ _ H) as [_ E].
+  rewrite Nat.sub_0_r in E. exact E.
+Qed.
+
 (* ------------- listeners ------------- *)
 Definition first_cookie_of (b : bytes) : option bytes :=
   match decode_packet b with
